@@ -13,7 +13,7 @@ from vf.hlib import FAMILIES, MISSING, case, fail, finish, get_env, pick, copy_t
 PID = "C17"
 WHICH = ["dict", "list"]
 PARTS = [(f, w) for f in FAMILIES for w in WHICH]
-PRE = ["existing", "missing", "ctor-data-missing", "removed-after-load", "reordered", "retyped"]
+PRE = ["existing", "missing", "ctor-data-missing", "removed-after-load", "reordered", "retyped", "foreign-format"]
 CTXS = ["none", "object", "backend", "object-in-backend", "backend-in-object", "backend-cap-forced"]
 
 
@@ -22,6 +22,8 @@ def valid(fam, which, pre):
         return fam.kind == "json"
     if pre == "reordered":
         return which == "dict"
+    if pre == "foreign-format":
+        return fam.kind == "json"  # a file written by another tool (indented, newline-terminated)
     return True
 
 
@@ -94,7 +96,10 @@ def reads(pi: int, ci: int, r1: int, r2: int, hs: int, x: int, y: int) -> bool:
     if ops.readers(which)[r1].concrete or ops.readers(which)[r2].concrete:
         x, y = 1, 2
     doc = doc_for(which, x, y)
-    if pre == "existing":
+    if pre == "foreign-format":
+        env.write_doc("r", doc, foreign=True)
+        obj = fam.make(env, which, "r")
+    elif pre == "existing":
         fam.write(env, "r", doc)
         obj = fam.make(env, which, "r")
     elif pre == "missing":
